@@ -26,10 +26,27 @@ def key(t):
     return "%s.%d.%d" % (t.full_name, t.version.major, t.version.minor)
 
 
+# process history for the next generation: (dsdl_dir, roots) of another namespace set that is generated first, into a scratch output
+# directory, by the SAME interpreter (several CLI invocations through vlib/launch_nnvg.py).  Set by a check around build_bases().
+HISTORY = None
+
+
 def gen_cli(dsdl_dir, roots, out, lang, flags, cwd):
-    rs = genrun.nnvg_all_roots(dsdl_dir, roots, out, lang, extra=flags, cwd=cwd)
-    bad = [r for r in rs if r.returncode != 0]
-    return (not bad), (bad[0].stderr[-1500:] if bad else "")
+    if HISTORY is None:
+        rs = genrun.nnvg_all_roots(dsdl_dir, roots, out, lang, extra=flags, cwd=cwd)
+        bad = [r for r in rs if r.returncode != 0]
+        return (not bad), (bad[0].stderr[-1500:] if bad else "")
+    import json
+    runs = []
+    for d, rts, o in ((HISTORY[0], HISTORY[1], os.path.join(cwd, "history_out")), (dsdl_dir, roots, out)):
+        for root in rts:
+            cmd = ["-l", lang, "-O", o, os.path.join(d, root), "--allow-unregulated-fixed-port-id", "--experimental-languages"] + list(flags)
+            for x in rts:
+                if x != root:
+                    cmd += ["-I", os.path.join(d, x)]
+            runs.append(cmd)
+    r = common.run([common.PY, os.path.join(common.VERIF, "vlib", "launch_nnvg.py")], cwd=cwd, env=dict(common.child_env(), VERIF_ARGV_JSON=json.dumps(runs)), timeout=900)
+    return r.returncode == 0, r.stderr[-1500:]
 
 
 class CBase:
